@@ -22,8 +22,12 @@ def walk_zorg_page(
         zo_path_part if zo_path_part.is_absolute() else zdir / zo_path_part
     )
     zorg_page = Page(zo_path)
-    stream = antlr4.FileStream(zorg_page.path, errors="ignore")
+    stream = antlr4.FileStream(
+        zorg_page.path, encoding="utf-8", errors="ignore"
+    )
     lexer = ZorgFileLexer(stream)
+    if not verbose:
+        lexer.removeErrorListeners()
     tokens = antlr4.CommonTokenStream(lexer)
     parser = ZorgFileParser(tokens)
     if not verbose:
